@@ -299,7 +299,7 @@ fn alignment_case(rep: &mut Report, rng: &mut Rng) {
     // valid text with escapes adjacent to multi-byte characters at every
     // alignment: forces both the borrowed fast path and the scratch path
     let elisp = rng.bool();
-    let pieces_r6: &[&str] = &["λ", "中", "𝒳", "é", "a", "\\n", "\\x3bb;", "\\x41;", "\\\\", "\\\"", "\\t", "\\x10FFFF;", "\\xD7FF;", " ", "\\a"];
+    let pieces_r6: &[&str] = &["λ", "中", "𝒳", "é", "a", "\\n", "\\x3bb;", "\\x41;", "\\xe9;", "\\x80;", "\\xff;", "\\xA0;", "\\x7f;", "\\x100;", "\\x7ff;", "\\x800;", "\\xffff;", "\\x10000;", "\\\\", "\\\"", "\\t", "\\x10FFFF;", "\\xD7FF;", " ", "\\a"];
     let pieces_el: &[&str] = &["λ", "中", "𝒳", "é", "a", "\\n", "\\u00e9", "\\U0001F600", "\\N{U+3bb}", "\\\\", "\\\"", "\\ ", "\\x41", "\\101", "\\xff", "\\377", "\\x3bb", "\\e", "\\^a", "\\d"];
     let n = rng.range(1, 8);
     let mut s = String::from("\"");
